@@ -131,6 +131,20 @@ def step (st : St) (ts : List String) : St × Verdict × List String :=
       (st, .specfail s!"the export path holds neither the previous file ({st.oldExport}) nor the new one ({st.newExport}) class=export-path-with-tmp-extension-written-in-place", notes)
     else if content ≠ modelContent then (st, .mismatch s!"model={modelContent}", notes)
     else (st, .ok, notes)
+  | ["statsw", msgsS, namesS] =>
+    -- the real statistics worker fed with these messages: the clients its page lists are those of the ids
+    -- the model's tally still holds, each id counted once
+    let msgs := parseMsgs msgsS
+    let tally := tallyRun [] msgs
+    let names : List (Nat × String) := (sepList "," namesS).filterMap (fun x => match x.splitOn "=" with
+      | [h, n] => some (hexNat h, n) | _ => none)
+    let clientsOf := tally.filterMap (fun (id, _) => (names.find? (fun x => x.1 = id)).map (·.2))
+    let distinct := clientsOf.eraseDups
+    let want := sortStrs (distinct.map (fun c => s!"{c}={clientsOf.count c}"))
+    let wantS := if want.isEmpty then "-" else String.intercalate ";" want
+    let impl := out.getD 0 "?"
+    let notes := ["case", "statsw"] ++ (if want.length > 1 then ["several-clients"] else []) ++ (if msgs.any (fun m => match m with | .removed _ => true | _ => false) then ["with-removals"] else [])
+    if impl = wantS then (st, .ok, notes) else (st, .mismatch s!"model clients={wantS}", notes)
   | _ => (st, .bad "unknown op", [])
 
 def main : IO Unit := do
